@@ -375,6 +375,16 @@ func (w *world) build(class string, slot int, seed int) request {
 	panic("unknown request class " + class)
 }
 
+func (w *world) hasTask(id string) bool {
+	ts, _ := w.env.Store.Dump()
+	for _, t := range ts {
+		if t.Info.TaskID == id {
+			return true
+		}
+	}
+	return false
+}
+
 // remember keeps the collection part of an accepted create of a slot, without positions
 func (w *world) remember(class string, slot int, r request, a answer) {
 	if !strings.HasPrefix(class, "create") || a.broken || !bytes.Contains(a.raw, []byte(`"code":200`)) {
@@ -545,8 +555,11 @@ func run(p *hx.Plan) []hx.Event {
 			seed = int(s.(float64))
 		}
 		r := w.build(class, slot, seed)
+		existed := w.hasTask(slotID(slot))
 		a := w.send(r)
-		w.remember(class, slot, r, a)
+		if !existed { // a create for an id that exists is answered with the existing task and creates nothing
+			w.remember(class, slot, r, a)
+		}
 		ev := hx.Event{"op": class, "i": i + 2, "n": len(p.Steps) + 1, "slot": slot, "method": r.method, "broken": a.broken, "http": a.status, "err": a.errText,
 			"must_reject": r.mustReject, "draw": seed}
 		if len(r.body) <= 600 {
